@@ -1,0 +1,146 @@
+//go:build verif
+
+package kvql
+
+// Contracts for func.go (value coercions) and scalar_func.go (property C10; row forms).
+// Comment-only.
+//
+// Coercions shared by the function bodies.
+//@ func toInt(value any, defVal int64) (n int64)
+//@   props C10
+//@   assigns nothing
+//@   ensures[C10] same: isInt(value) ==> n == intof(value)
+//@   ensures[C10] decimal: isText(value) && parseIntOk(textOf(value)) ==> n == parseInt(textOf(value))
+//@   ensures[C10] fallback: isText(value) && !parseIntOk(textOf(value)) && !parseFloatOk(textOf(value)) ==> n == defVal
+//
+//@ func toFloat(value any, defVal float64) (f float64)
+//@   props C10
+//@   assigns nothing
+//@   ensures[C10] same: is(value, float64) ==> f == fltof(value)
+//@   ensures[C10] widened: is(value, int) || is(value, int32) || is(value, int64) || is(value, uint) || is(value, uint32) || is(value, uint64) ==> f == i2f(intof(value))
+//@   ensures[C10] decimal: isText(value) && parseFloatOk(textOf(value)) ==> f == parseFloat(textOf(value))
+//@   ensures[C10] fallback: isText(value) && !parseFloatOk(textOf(value)) ==> f == defVal
+//
+// The function bodies take their arguments unevaluated; a0 is the value of the first argument.
+//@ define wfArgs(args []Expression, n Int) Bool = len(args) == n && (forall i Int :: 0 <= i && i < len(args) ==> args[i] != nil)
+//@ define aok(args []Expression, i Int, kv KVPair) Bool = evalok(args[i], val(kv.Key), val(kv.Value))
+//@ define av(args []Expression, i Int, kv KVPair) Any = evalv(args[i], val(kv.Key), val(kv.Value))
+//
+//@ func funcToString(kv KVPair, args []Expression, ctx *ExecuteCtx) (ret any, err error)
+//@   props C10
+//@   requires wfArgs(args, 1)
+//@   assigns ctx.Hit, mapof(ctx.FieldCaches)
+//@   ensures[C10] defined: (err == nil) == aok(args, 0, kv)
+//@   ensures[C10] str: err == nil ==> isstr(ret) && (isInt(av(args, 0, kv)) ==> textOf(ret) == itoa(intof(av(args, 0, kv)))) && (isText(av(args, 0, kv)) ==> textOf(ret) == textOf(av(args, 0, kv)))
+//
+//@ func funcToInt(kv KVPair, args []Expression, ctx *ExecuteCtx) (ret any, err error)
+//@   props C10
+//@   requires wfArgs(args, 1)
+//@   assigns ctx.Hit, mapof(ctx.FieldCaches)
+//@   ensures[C10] defined: (err == nil) == aok(args, 0, kv)
+//@   ensures[C10] int: err == nil ==> isint64(ret) && (isText(av(args, 0, kv)) && parseIntOk(textOf(av(args, 0, kv))) ==> intof(ret) == parseInt(textOf(av(args, 0, kv)))) && (isInt(av(args, 0, kv)) ==> intof(ret) == intof(av(args, 0, kv)))
+//
+//@ func funcToFloat(kv KVPair, args []Expression, ctx *ExecuteCtx) (ret any, err error)
+//@   props C10
+//@   requires wfArgs(args, 1)
+//@   assigns ctx.Hit, mapof(ctx.FieldCaches)
+//@   ensures[C10] defined: (err == nil) == aok(args, 0, kv)
+//@   ensures[C10] float: err == nil ==> isf64(ret) && (isText(av(args, 0, kv)) && parseFloatOk(textOf(av(args, 0, kv))) ==> fltof(ret) == parseFloat(textOf(av(args, 0, kv))))
+//
+//@ func funcIsInt(kv KVPair, args []Expression, ctx *ExecuteCtx) (ret any, err error)
+//@   props C10
+//@   requires wfArgs(args, 1)
+//@   assigns ctx.Hit, mapof(ctx.FieldCaches)
+//@   ensures[C10] defined: (err == nil) == aok(args, 0, kv)
+//@   ensures[C10] isint: err == nil ==> ret == ABool(isInt(av(args, 0, kv)) || (isText(av(args, 0, kv)) && parseIntOk(textOf(av(args, 0, kv)))))
+//
+//@ func funcIsFloat(kv KVPair, args []Expression, ctx *ExecuteCtx) (ret any, err error)
+//@   props C10
+//@   requires wfArgs(args, 1)
+//@   assigns ctx.Hit, mapof(ctx.FieldCaches)
+//@   ensures[C10] defined: (err == nil) == aok(args, 0, kv)
+//@   ensures[C10] isfloat: err == nil ==> ret == ABool(isFlt(av(args, 0, kv)) || (isText(av(args, 0, kv)) && parseFloatOk(textOf(av(args, 0, kv)))))
+//
+//@ func funcStrlen(kv KVPair, args []Expression, ctx *ExecuteCtx) (ret any, err error)
+//@   props C10
+//@   requires wfArgs(args, 1)
+//@   assigns ctx.Hit, mapof(ctx.FieldCaches)
+//@   ensures[C10] defined: (err == nil) == aok(args, 0, kv)
+//@   ensures[C10] bytes: err == nil && isText(av(args, 0, kv)) ==> ret == AInt(blen(textOf(av(args, 0, kv))))
+//
+// substr(value, start, end): the bytes of value from position start up to (not including)
+// position end, positions clamped to the text (README; spec.md: "substring from 2 to 3 (one char)").
+//@ define lo0(a Int) Int = ite(a < 0, 0, a)
+//@ define hiN(b Int, n Int) Int = ite(b > n, n, b)
+//@ define subText(s B, a Int, b Int) B = ite(lo0(a) < hiN(b, blen(s)), sub(s, lo0(a), hiN(b, blen(s))), "")
+//@ func funcSubStr(kv KVPair, args []Expression, ctx *ExecuteCtx) (ret any, err error)
+//@   props C10
+//@   requires wfArgs(args, 3)
+//@   assigns ctx.Hit, mapof(ctx.FieldCaches)
+//@   ensures[C10] substring: err == nil && isText(av(args, 0, kv)) && isInt(av(args, 1, kv)) && isInt(av(args, 2, kv)) ==> isstr(ret) && textOf(ret) == subText(textOf(av(args, 0, kv)), intof(av(args, 1, kv)), intof(av(args, 2, kv)))
+//@   ensures[C10] total: aok(args, 0, kv) && aok(args, 1, kv) && aok(args, 2, kv) && rtype(args[1]) == TNUMBER && rtype(args[2]) == TNUMBER ==> err == nil
+//
+// List values: what split / list / int_list / float_list / json arrays produce.
+//@ define isList(x Any) Bool = is(x, []string) || is(x, []int64) || is(x, []float64) || is(x, [][]byte) || is(x, []any)
+//@ define listLen(x Any) Int = len(as(x, []any))
+//
+// len counts the elements of any list value (and the bytes of a text).
+//@ func getListLength(data any) (n int, err error)
+//@   props C10
+//@   assigns nothing
+//@   ensures[C10] lists: isList(data) ==> err == nil && n == listLen(data)
+//@   ensures[C10] text: isText(data) ==> err == nil && n == blen(textOf(data))
+//
+//@ func funcLen(kv KVPair, args []Expression, ctx *ExecuteCtx) (ret any, err error)
+//@   props C10
+//@   requires wfArgs(args, 1)
+//@   assigns ctx.Hit, mapof(ctx.FieldCaches)
+//@   ensures[C10] count: aok(args, 0, kv) && isList(av(args, 0, kv)) ==> err == nil && is(ret, int) && intof(ret) == listLen(av(args, 0, kv))
+//
+// list(...) / int_list(...) / float_list(...) hold their arguments in order.
+//@ func funcIntList(kv KVPair, args []Expression, ctx *ExecuteCtx) (ret any, err error)
+//@   props C10
+//@   ghost k Int
+//@   requires forall i Int :: 0 <= i && i < len(args) ==> args[i] != nil
+//@   assigns ctx.Hit, mapof(ctx.FieldCaches)
+//@   ensures[C10] defined: err == nil ==> is(ret, []int64) && len(as(ret, []int64)) == len(args)
+//@   ensures[C10] inorder: err == nil && 0 <= k && k < len(args) && isInt(av(args, k, kv)) ==> as(ret, []int64)[k] == intof(av(args, k, kv))
+//@   loop 0
+//@     invariant 0 <= i && i <= len(args) && len(ret) == len(args) && fresh(ret)
+//@     invariant 0 <= k && k < i && isInt(av(args, k, kv)) ==> ret[k] == intof(av(args, k, kv))
+//
+//@ func funcFloatList(kv KVPair, args []Expression, ctx *ExecuteCtx) (ret any, err error)
+//@   props C10
+//@   ghost k Int
+//@   requires forall i Int :: 0 <= i && i < len(args) ==> args[i] != nil
+//@   assigns ctx.Hit, mapof(ctx.FieldCaches)
+//@   ensures[C10] defined: err == nil ==> is(ret, []float64) && len(as(ret, []float64)) == len(args)
+//@   ensures[C10] inorder: err == nil && 0 <= k && k < len(args) && is(av(args, k, kv), float64) ==> as(ret, []float64)[k] == fltof(av(args, k, kv))
+//@   loop 0
+//@     invariant 0 <= i && i <= len(args) && len(ret) == len(args) && fresh(ret)
+//@     invariant 0 <= k && k < i && is(av(args, k, kv), float64) ==> ret[k] == fltof(av(args, k, kv))
+//
+// Indexing with [n] returns element n (counting from 0) of any list value.
+//@ func (e *FieldAccessExpr) execListAccess(idx int, left any) (fval any, err error)
+//@   props C10
+//@   requires e != nil && e.Left != nil && idx >= 0
+//@   assigns nothing
+//@   ensures[C10] anylist: is(left, []any) && idx < listLen(left) ==> err == nil && fval == as(left, []any)[idx]
+//@   ensures[C10] strings: is(left, []string) && idx < listLen(left) ==> err == nil && fval == AStr(as(left, []string)[idx])
+//@   ensures[C10] ints: is(left, []int64) && idx < listLen(left) ==> err == nil && fval == AInt(as(left, []int64)[idx])
+//@   ensures[C10] floats: is(left, []float64) && idx < listLen(left) ==> err == nil && fval == AFlt(as(left, []float64)[idx])
+//
+// Distances refuse vectors of different lengths.
+//@ func l2Distance(left, right []float64) (d float64, err error)
+//@   props C10
+//@   assigns nothing
+//@   ensures[C10] lengths: (err == nil) == (len(left) == len(right))
+//@   loop 0
+//@     invariant 0 <= i && i <= len(left) && len(left) == len(right)
+//
+//@ func cosineDistance(left, right []float64) (d float64, err error)
+//@   props C10
+//@   assigns nothing
+//@   ensures[C10] lengths: (err == nil) == (len(left) == len(right))
+//@   loop 0
+//@     invariant 0 <= i && i <= len(left) && len(left) == len(right)
